@@ -344,8 +344,16 @@ fn gen_categorical(r: &mut Sm) -> Vec<f64> {
 }
 fn gen_empirical(r: &mut Sm) -> Vec<f64> {
     let len = 1 + r.below(12) as usize;
-    let mode = r.below(4);
+    let mode = r.below(5);
     let off = *r.pick(&[0.0, 1.0, -100.0, 100.0, 1e4]);
+    if mode == 4 {
+        // a cluster near 0 and one far outlier: the sample range is much larger than max(1, |Q(p)|) for most p,
+        // which is where a quantile search bracketed by [min, max] instead of the doubling bracket loses the bound
+        let mut v: Vec<f64> = (0..len).map(|_| r.below(4) as f64).collect();
+        let s = if r.below(2) == 0 { 1.0 } else { -1.0 };
+        v.push(s * r.log_range(1e3, 1e6));
+        return v;
+    }
     let mut v = vec![];
     for _ in 0..len {
         let x = match mode {
@@ -389,8 +397,14 @@ pub fn all_tuples(cx: &mut Ctx, n: usize, want: &dyn Fn(&str) -> bool) -> Vec<Tu
         if !want(fam) {
             continue;
         }
-        for _ in 0..n {
-            let v = if fam == "Categorical" { gen_categorical(&mut cx.r) } else { gen_empirical(&mut cx.r) };
+        for i in 0..n {
+            let v = if fam == "Categorical" {
+                gen_categorical(&mut cx.r)
+            } else if i == 0 {
+                vec![0.0, 1.0, 2.0, 3.0, 1000.0] // cluster + far outlier (see gen_empirical, mode 4): always present
+            } else {
+                gen_empirical(&mut cx.r)
+            };
             let t = vec![Arg::FL(v)];
             if let Some(obj) = make(fam, &t) {
                 out.push(Tup { fam: fam.to_string(), ctor: t, names: vec![if fam == "Categorical" { "prob_mass".to_string() } else { "data".to_string() }], ext: false, obj });
